@@ -107,6 +107,22 @@ def seed_incremental_stream():
                    expect=["Third text"], features=["incremental updates with cross-reference streams", "Prev chain of streams"])
 
 
+def seed_deep_tree():
+    """a page tree twelve levels deep (one kid per level): valid, small, and the place where duplicating every kid
+    (the dup_kids_all combination) turns the tree into a chain with 2**12 paths"""
+    depth = 12
+    o = {1: {"Type": N("Catalog"), "Pages": Ref(10)}, 4: helv(), 5: Stream({}, text("Deep page"))}
+    for i in range(depth):
+        o[10 + i] = {"Type": N("Pages"), "Kids": [Ref(11 + i)], "Count": 1}
+        if i:
+            o[10 + i]["Parent"] = Ref(9 + i)
+    o[10]["MediaBox"] = list(MB)
+    o[10]["Resources"] = {"Font": {"F1": Ref(4)}}
+    o[10 + depth] = {"Type": N("Page"), "Parent": Ref(9 + depth), "Contents": Ref(5)}
+    return SeedDoc("deep_tree", [Rev(dict(sorted(o.items())))], expect=["Deep page"],
+                   features=["page tree 12 levels deep", "attributes inherited over 12 levels"])
+
+
 def seed_ascii_filters():
     c1 = text("AsciiHex")
     c2 = text("Ascii85")
@@ -334,7 +350,7 @@ def seed_enc_aes256():
     return _encrypted("enc_aes256", 5, 6, 256, "AESV3")
 
 
-BUILDERS = [seed_classic, seed_xrefstream, seed_incremental, seed_incremental_stream, seed_ascii_filters, seed_lzw_rl, seed_predictors,
+BUILDERS = [seed_classic, seed_xrefstream, seed_incremental, seed_incremental_stream, seed_deep_tree, seed_ascii_filters, seed_lzw_rl, seed_predictors,
             seed_simple_fonts, seed_type0, seed_pagelabels, seed_xobjects, seed_enc_rc4, seed_enc_aes128, seed_enc_aes256]
 
 
